@@ -25,78 +25,66 @@ fn ids_of(s: &HpoSet) -> Vec<u32> {
     s.iter().map(|t| t.id().as_u32()).collect()
 }
 
-fn check_subset(ont: &Ontology, r: &RefOnt, x: &[u32]) -> V {
-    let set = set_of(ont, x);
-    check_set(ont, r, &set, x)
+/// What the model says about the terms of one ontology, computed once per ontology (not once per subset).
+struct Pre<'r> {
+    r: &'r RefOnt,
+    is_mod: BTreeMap<u32, bool>,
+    cats: BTreeMap<u32, Vec<u32>>,
 }
 
-/// all observations of one (possibly long-lived) HpoSet against the model set `x`
-fn check_set(ont: &Ontology, r: &RefOnt, set: &HpoSet, x: &[u32]) -> V {
-    let v = |site: &str, sig: &str, det: String| Some((site.to_string(), sig.to_string(), det));
-    let xs: BTreeSet<u32> = x.iter().copied().collect();
-    // len / is_empty / contains / iter / get
+impl<'r> Pre<'r> {
+    fn new(r: &'r RefOnt) -> Pre<'r> {
+        Pre { r, is_mod: r.terms.keys().map(|t| (*t, r.is_modifier(*t, Mode::Defaults))).collect(), cats: r.terms.keys().map(|t| (*t, r.term_categories(*t, Mode::Defaults))).collect() }
+    }
+}
+
+fn check_subset(ont: &Ontology, pre: &Pre, x: &[u32], deep: bool) -> V {
+    let set = set_of(ont, x);
+    check_set(ont, pre, &set, x, deep)
+}
+
+/// The members a set hands out, sorted. The statement speaks of sets: in which order an HpoSet iterates (and
+/// which member get(i) is) is stated nowhere - C12 fixes the order of an HpoGroup, not of an HpoSet - so members
+/// are compared as sets; a member handed out twice stays in the list and fails the comparison.
+fn members(s: &HpoSet) -> Vec<u32> {
+    let mut v = ids_of(s);
+    v.sort_unstable();
+    v
+}
+
+/// len / is_empty / iter / contains / get of one set against the model set `xs`
+fn check_basic(pre: &Pre, set: &HpoSet, xs: &BTreeSet<u32>, who: &str) -> V {
+    let v = |site: &str, sig: &str, det: String| Some((site.to_string(), format!("{who}{sig}"), det));
+    let want: Vec<u32> = xs.iter().copied().collect();
     if set.len() != xs.len() || set.is_empty() != xs.is_empty() {
-        return v("HpoSet::len", "len/is_empty disagree with the members", format!("set {x:?}: len {}", set.len()));
+        return v("HpoSet::len", "len/is_empty disagree with the members", format!("set {want:?}: len {}", set.len()));
     }
-    let it = ids_of(&set);
-    if it != xs.iter().copied().collect::<Vec<_>>() {
-        return v("HpoSet::iter", "iteration does not yield the members in ascending order", format!("set {x:?}: {it:?}"));
+    let it = members(set);
+    if it != want {
+        return v("HpoSet::iter", "iteration does not yield exactly the members, each once", format!("set {want:?}: {:?}", ids_of(set)));
     }
-    for t in r.terms.keys() {
+    for t in pre.r.terms.keys() {
         if set.contains(&(*t).into()) != xs.contains(t) {
-            return v("HpoSet::contains", "membership differs from the set", format!("set {x:?}: contains({t})"));
+            return v("HpoSet::contains", "membership differs from the set", format!("set {want:?}: contains({t})"));
         }
     }
-    for i in 0..=xs.len() {
-        let got = set.get(i).map(|t| t.id().as_u32());
-        let want = xs.iter().nth(i).copied();
-        if got != want {
-            return v("HpoSet::get", "get(i) is not the i-th member", format!("set {x:?}: get({i}) = {got:?} expected {want:?}"));
-        }
+    // get: the indices 0..len hand out every member exactly once, get(len) nothing
+    let mut got: Vec<Option<u32>> = (0..xs.len()).map(|i| set.get(i).map(|t| t.id().as_u32())).collect();
+    got.sort_unstable();
+    if got != want.iter().map(|t| Some(*t)).collect::<Vec<_>>() || set.get(xs.len()).is_some() {
+        return v("HpoSet::get", "get(0..len) does not hand out every member exactly once (or get(len) is not None)", format!("set {want:?}: {got:?}, get(len) = {:?}", set.get(xs.len()).map(|t| t.id().as_u32())));
     }
-    // child_nodes
-    let want: Vec<u32> = xs.iter().copied().filter(|t| !xs.iter().any(|o| r.terms[o].ancestors.contains(t))).collect();
-    let got = ids_of(&set.child_nodes());
-    if got != want {
-        return v("HpoSet::child_nodes", "does not keep exactly the members without a descendant in the set", format!("set {x:?}: {got:?} expected {want:?}"));
-    }
-    // modifier
-    let want: Vec<u32> = xs.iter().copied().filter(|t| !r.is_modifier(*t, Mode::Defaults)).collect();
-    let got = ids_of(&set.without_modifier());
-    if got != want {
-        return v("HpoSet::without_modifier", "does not drop exactly the members that are or descend from a modifier root", format!("set {x:?}: {got:?} expected {want:?}"));
-    }
-    let mut m = set_of(ont, x);
-    m.remove_modifier();
-    if ids_of(&m) != want {
-        return v("HpoSet::remove_modifier", "in-place result differs from the copying counterpart", format!("set {x:?}: {:?} expected {want:?}", ids_of(&m)));
-    }
-    // obsolete
-    let want: Vec<u32> = xs.iter().copied().filter(|t| !r.terms[t].obsolete).collect();
-    let got = ids_of(&set.without_obsolete());
-    if got != want {
-        return v("HpoSet::without_obsolete", "does not drop exactly the obsolete members", format!("set {x:?}: {got:?} expected {want:?}"));
-    }
-    let mut m = set_of(ont, x);
-    m.remove_obsolete();
-    if ids_of(&m) != want {
-        return v("HpoSet::remove_obsolete", "in-place result differs from the copying counterpart", format!("set {x:?}: {:?} expected {want:?}", ids_of(&m)));
-    }
-    // replacement
-    let want: Vec<u32> = xs.iter().map(|t| r.terms[t].replacement.unwrap_or(*t)).collect::<BTreeSet<u32>>().into_iter().collect();
-    let repl = set.with_replaced_obsolete();
-    let got = ids_of(&repl);
-    if got != want || repl.len() != want.len() {
-        return v("HpoSet::with_replaced_obsolete", "does not substitute exactly the members that name a replacement (as a set)", format!("set {x:?}: {got:?} (len {}) expected {want:?}", repl.len()));
-    }
-    let mut m = set_of(ont, x);
-    m.replace_obsolete();
-    if ids_of(&m) != want || m.len() != want.len() {
-        return v("HpoSet::replace_obsolete", "in-place result differs from the copying counterpart", format!("set {x:?}: {:?} expected {want:?}", ids_of(&m)));
-    }
+    None
+}
+
+/// gene / disease unions, category counts and the aggregated information content of one set against the model set
+fn check_aggregates(pre: &Pre, set: &HpoSet, xs: &BTreeSet<u32>, who: &str) -> V {
+    let v = |site: &str, sig: &str, det: String| Some((site.to_string(), format!("{who}{sig}"), det));
+    let r = pre.r;
+    let x: Vec<u32> = xs.iter().copied().collect();
     // unions of annotations
     let mut unions: [BTreeSet<u32>; 3] = Default::default();
-    for t in &xs {
+    for t in xs {
         for k in 0..3 {
             unions[k].extend(r.terms[t].recs[k].iter().copied());
         }
@@ -115,37 +103,176 @@ fn check_set(ont: &Ontology, r: &RefOnt, set: &HpoSet, x: &[u32]) -> V {
     }
     // categories
     let mut want: BTreeMap<u32, usize> = BTreeMap::new();
-    for t in &xs {
-        for c in r.term_categories(*t, Mode::Defaults) {
-            *want.entry(c).or_insert(0) += 1;
+    for t in xs {
+        for c in &pre.cats[t] {
+            *want.entry(*c).or_insert(0) += 1;
         }
     }
     let got: BTreeMap<u32, usize> = set.categories().iter().map(|(k, v)| (k.as_u32(), *v)).collect();
     if got != want {
         return v("HpoSet::categories", "does not count the members per category", format!("set {x:?}: {got:?} expected {want:?}"));
     }
-    // aggregated information content
+    // aggregated information content: -ln(|union|/N). The statement has no zero clause (C03's is about terms):
+    // for an empty union the formula gives +inf and for an empty kind it has no value, so 0, +inf or an error
+    // are all accepted there (for N = 0 any value); the value is demanded for 0 < |union| <= N
+    let totals = [r.recs[0].len(), r.recs[1].len()];
+    let open = |k: usize| unions[k].is_empty() || totals[k] == 0;
     match set.information_content() {
         Ok(ic) => {
-            let wg = ic_value(r.recs[0].len(), unions[0].len());
-            let wo = ic_value(r.recs[1].len(), unions[1].len());
-            if !crate::obs::close32(ic.gene(), wg) || !crate::obs::close32(ic.omim_disease(), wo) {
-                return v("HpoSet::information_content", "not -ln(|union|/N)", format!("set {x:?}: gene {} expected {wg}, omim {} expected {wo}", ic.gene(), ic.omim_disease()));
+            for (k, (name, got)) in [("gene", ic.gene()), ("omim", ic.omim_disease())].into_iter().enumerate() {
+                let ok = if totals[k] == 0 {
+                    true
+                } else if unions[k].is_empty() {
+                    got == 0.0 || got == f32::INFINITY
+                } else {
+                    crate::obs::close32(got, ic_value(totals[k], unions[k].len()))
+                };
+                if !ok {
+                    return v("HpoSet::information_content", "not -ln(|union|/N)", format!("set {x:?}: {name} {got} expected -ln({}/{})", unions[k].len(), totals[k]));
+                }
             }
         }
+        Err(_) if open(0) || open(1) => {}
         Err(e) => return v("HpoSet::information_content", "returns an error", format!("set {x:?}: {e}")),
     }
     None
 }
 
+/// all observations of one (possibly long-lived) HpoSet against the model set `x`.
+/// `deep`: the aggregates are asked of `set` BEFORE anything is derived from it (and again afterwards), every set
+/// derived from it - by a copying or an in-place operation - is itself observed completely (len, iter, contains,
+/// get, unions, categories, information content: a derived set must not answer with anything remembered for its
+/// parent) and the copying operations are applied to it once more.
+fn check_set(ont: &Ontology, pre: &Pre, set: &HpoSet, x: &[u32], deep: bool) -> V {
+    let v = |site: &str, sig: &str, det: String| Some((site.to_string(), sig.to_string(), det));
+    let r = pre.r;
+    let xs: BTreeSet<u32> = x.iter().copied().collect();
+    if deep {
+        if let Some(f) = check_aggregates(pre, set, &xs, "") {
+            return Some(f);
+        }
+    }
+    if let Some(f) = check_basic(pre, set, &xs, "") {
+        return Some(f);
+    }
+    // the model's results of the five operations on a model set
+    let child_nodes = |s: &BTreeSet<u32>| -> BTreeSet<u32> { s.iter().copied().filter(|t| !s.iter().any(|o| r.terms[o].ancestors.contains(t))).collect() };
+    let no_modifier = |s: &BTreeSet<u32>| -> BTreeSet<u32> { s.iter().copied().filter(|t| !pre.is_mod[t]).collect() };
+    let no_obsolete = |s: &BTreeSet<u32>| -> BTreeSet<u32> { s.iter().copied().filter(|t| !r.terms[t].obsolete).collect() };
+    let replaced = |s: &BTreeSet<u32>| -> BTreeSet<u32> { s.iter().map(|t| r.terms[t].replacement.unwrap_or(*t)).collect() };
+    let list = |s: &BTreeSet<u32>| -> Vec<u32> { s.iter().copied().collect() };
+    // a set derived from `set`: observed completely, and derived from once more
+    let derived = |d: &HpoSet, want: &BTreeSet<u32>, how: &str| -> V {
+        if !deep {
+            return None;
+        }
+        let who = format!("[set derived by {how}] ");
+        if let Some(f) = check_basic(pre, d, want, &who).or_else(|| check_aggregates(pre, d, want, &who)) {
+            return Some((f.0, f.1, format!("derived from {x:?}: {}", f.2)));
+        }
+        for (name, got, w2) in [("child_nodes", members(&d.child_nodes()), child_nodes(want)), ("without_modifier", members(&d.without_modifier()), no_modifier(want)), ("without_obsolete", members(&d.without_obsolete()), no_obsolete(want)), ("with_replaced_obsolete", members(&d.with_replaced_obsolete()), replaced(want))] {
+            if got != list(&w2) {
+                return v(&format!("HpoSet::{name}"), &format!("{who}wrong result when applied to a derived set"), format!("set {x:?} -> {:?} -> {got:?} expected {:?}", list(want), list(&w2)));
+            }
+        }
+        None
+    };
+    // child_nodes
+    let want = child_nodes(&xs);
+    let d = set.child_nodes();
+    if members(&d) != list(&want) {
+        return v("HpoSet::child_nodes", "does not keep exactly the members without a descendant in the set", format!("set {x:?}: {:?} expected {:?}", ids_of(&d), list(&want)));
+    }
+    if let Some(f) = derived(&d, &want, "child_nodes") {
+        return Some(f);
+    }
+    // modifier
+    let want = no_modifier(&xs);
+    let d = set.without_modifier();
+    if members(&d) != list(&want) {
+        return v("HpoSet::without_modifier", "does not drop exactly the members that are or descend from a modifier root", format!("set {x:?}: {:?} expected {:?}", ids_of(&d), list(&want)));
+    }
+    if let Some(f) = derived(&d, &want, "without_modifier") {
+        return Some(f);
+    }
+    let mut m = set_of(ont, x);
+    if deep {
+        // (the set that is about to be filtered in place has answered the aggregate queries before)
+        let _ = (m.gene_ids(), m.omim_disease_ids(), m.orpha_disease_ids(), m.information_content().is_ok());
+    }
+    m.remove_modifier();
+    if members(&m) != list(&want) {
+        return v("HpoSet::remove_modifier", "in-place result differs from the copying counterpart", format!("set {x:?}: {:?} expected {:?}", ids_of(&m), list(&want)));
+    }
+    if let Some(f) = derived(&m, &want, "remove_modifier") {
+        return Some(f);
+    }
+    // obsolete
+    let want = no_obsolete(&xs);
+    let d = set.without_obsolete();
+    if members(&d) != list(&want) {
+        return v("HpoSet::without_obsolete", "does not drop exactly the obsolete members", format!("set {x:?}: {:?} expected {:?}", ids_of(&d), list(&want)));
+    }
+    if let Some(f) = derived(&d, &want, "without_obsolete") {
+        return Some(f);
+    }
+    let mut m = set_of(ont, x);
+    if deep {
+        let _ = (m.gene_ids(), m.omim_disease_ids(), m.orpha_disease_ids(), m.information_content().is_ok());
+    }
+    m.remove_obsolete();
+    if members(&m) != list(&want) {
+        return v("HpoSet::remove_obsolete", "in-place result differs from the copying counterpart", format!("set {x:?}: {:?} expected {:?}", ids_of(&m), list(&want)));
+    }
+    if let Some(f) = derived(&m, &want, "remove_obsolete") {
+        return Some(f);
+    }
+    // replacement
+    let want = replaced(&xs);
+    let repl = set.with_replaced_obsolete();
+    if members(&repl) != list(&want) || repl.len() != want.len() {
+        return v("HpoSet::with_replaced_obsolete", "does not substitute exactly the members that name a replacement (as a set)", format!("set {x:?}: {:?} (len {}) expected {:?}", ids_of(&repl), repl.len(), list(&want)));
+    }
+    if let Some(f) = derived(&repl, &want, "with_replaced_obsolete") {
+        return Some(f);
+    }
+    let mut m = set_of(ont, x);
+    if deep {
+        let _ = (m.gene_ids(), m.omim_disease_ids(), m.orpha_disease_ids(), m.information_content().is_ok());
+    }
+    m.replace_obsolete();
+    if members(&m) != list(&want) || m.len() != want.len() {
+        return v("HpoSet::replace_obsolete", "in-place result differs from the copying counterpart", format!("set {x:?}: {:?} expected {:?}", ids_of(&m), list(&want)));
+    }
+    if let Some(f) = derived(&m, &want, "replace_obsolete") {
+        return Some(f);
+    }
+    // unions of annotations, categories, aggregated information content (when `deep`: once more, now that other
+    // sets have been derived from this one)
+    check_aggregates(pre, set, &xs, "")
+}
+
+/// Which subsets of an n-term ontology get the `deep` treatment of check_set: all of them for n <= 4, otherwise
+/// every fourth in the order of the masks, rotating with the ontology (a stale answer of a derived set shows on
+/// nearly every subset with a flagged, modifier or annotated member).
+fn deep_for(mask: u32, n: usize, rot: usize) -> bool {
+    n <= 4 || (mask as usize + rot) % 4 == 0
+}
+
 pub fn run(ctx: &mut Ctx) {
     let thorough = ctx.tier.thorough();
     ctx.rule = "case = one ontology of family E (HP:1, HP:118, modifier root HP:5, k free terms with every parent-subset choice, eight obsolete/replacement patterns, records of all kinds) with every subset of its terms as HpoSet; distinct by construction; non-trivial = ontology with an obsolete or replaced term and at least one link among free terms".into();
-    ctx.assumptions = vec!["replacement ids name existing terms".into(), "ontologies are loaded with defaults (from_bytes), so modifier roots and categories are set".into()];
+    ctx.assumptions = vec![
+        "replacement ids name existing terms".into(),
+        "ontologies are loaded with defaults (from_bytes), so modifier roots and categories are set".into(),
+        "the statement speaks of sets: the order in which an HpoSet iterates and which member get(i) hands out are not compared (members as a set, each exactly once; get(0..len) hands out every member once, get(len) nothing)".into(),
+        "aggregated information content: the value -ln(|union|/N) is demanded for 0 < |union| <= N; for an empty union 0, +inf or an error is accepted, for an empty kind anything".into(),
+        "a decoder may refuse a file in which two terms name each other as replacement (counted)".into(),
+    ];
     let kmax = if thorough { 4 } else { 3 };
     let family = family_e(0, kmax, &[200, 7, 300, 150]);
-    ctx.space("family-E/all-subsets", &format!("{} ontologies (k <= {kmax} free terms) x all 2^n subsets of their terms; built by from_bytes(encode v3) and, without flags, also by the Builder", family.len()));
-    for (f, what) in &family {
+    ctx.space("family-E/all-subsets", &format!("{} ontologies (k <= {kmax} free terms) x all 2^n subsets of their terms; built by from_bytes(encode v3) and, without flags, also by the Builder; for every fourth subset (all, up to four terms) the aggregates are asked before anything is derived and every derived set is observed completely and derived from once more", family.len()));
+    for (fi, (f, what)) in family.iter().enumerate() {
         if !ctx.take() {
             continue;
         }
@@ -155,12 +282,19 @@ pub fn run(ctx: &mut Ctx) {
             ctx.nontrivial();
         }
         let r = RefOnt::derive(f);
+        let pre = Pre::new(&r);
         let n = f.terms.len();
         let ids: Vec<u32> = f.terms.iter().map(|t| t.id).collect();
         let mut onts: Vec<(Ontology, &str)> = vec![];
         ctx.transitions(f.n_steps());
         match drive::from_bytes(&encode::encode(f, &EncOpts::v(3))) {
             Ok(Ok(o)) => onts.push((o, "from_bytes")),
+            // two terms that name each other as replacement are a cycle: a decoder that refuses such a file is
+            // within its rights (the quantifier speaks of replaced terms, not of replacement cycles)
+            Ok(Err(_)) if what.contains("naming each other as replacement") => {
+                ctx.bump("mutual_replacement_file_refused", 1);
+                continue;
+            }
             other => {
                 ctx.violation("Ontology::from_bytes", "rejects a file laid out as documented", json!({"facts": f.to_json(), "observed": format!("{:?}", other.map(|r| r.map(|_| ())))}));
                 continue;
@@ -177,7 +311,7 @@ pub fn run(ctx: &mut Ctx) {
                 ctx.exec();
                 ctx.validated();
                 ctx.transitions(16);
-                match guard(|| check_subset(ont, &r, &x)) {
+                match guard(|| check_subset(ont, &pre, &x, deep_for(mask, n, fi))) {
                     Ok(None) => {}
                     Ok(Some((site, sig, det))) => ctx.violation(&site, &sig, json!({"family": what, "facts": f.to_json(), "constructor": path, "difference": det})),
                     Err(p) => ctx.violation("HpoSet", "panics", json!({"family": what, "facts": f.to_json(), "set": x, "observed": p})),
@@ -191,7 +325,7 @@ pub fn run(ctx: &mut Ctx) {
     // depend on how many records another kind has
     {
         let counts: Vec<[usize; 3]> = vec![[1, 2, 4], [1, 4, 2], [2, 1, 4], [2, 4, 1], [4, 1, 2], [4, 2, 1], [0, 3, 1], [3, 0, 2], [2, 4, 0], [5, 5, 5]];
-        ctx.space("record-count-asymmetry/all-subsets", &format!("{} ontologies: HP:1, HP:118 and five children of HP:118; (genes, OMIM, ORPHA) record counts {counts:?}, record j of a kind on the j-th child, the first record of every kind additionally on the last child; all 2^7 subsets, Builder and from_bytes", counts.len()));
+        ctx.space("record-count-asymmetry/all-subsets", &format!("{} ontologies: HP:1, HP:118 and five children of HP:118; (genes, OMIM, ORPHA) record counts {counts:?}, record j of a kind on the j-th child, the first record of every kind additionally on the last child; record ids 5, 65 541, 16 777 221, 4 294 967 290, 131 077 (+ 0 / 1 / 2 per kind: equal modulo 2^16); all 2^7 subsets, Builder and from_bytes, derived sets observed completely", counts.len()));
         for c in &counts {
             if !ctx.take() {
                 continue;
@@ -207,15 +341,19 @@ pub fn run(ctx: &mut Ctx) {
                 f.terms.push(Facts::term(k, &format!("Child {k}")));
                 f.edges.push((k, 118));
             }
+            // record ids that differ only above bit 16 / bit 24 and one near u32::MAX (a union kept in a bitmap or
+            // a narrowed key would merge them); the kinds use neighbouring ids
+            let wide: [u32; 5] = [5, 65_541, 16_777_221, 4_294_967_290, 131_077];
             for (ki, kind) in [Kind::Gene, Kind::Omim, Kind::Orpha].into_iter().enumerate() {
                 for j in 0..c[ki] {
-                    f.anns.push(Facts::ann(kind, 100 * (ki as u32 + 1) + j as u32, &format!("{}{j}", kind.name()), Some(kids[j % 5])));
+                    f.anns.push(Facts::ann(kind, wide[j] + ki as u32, &format!("{}{j}", kind.name()), Some(kids[j % 5])));
                 }
                 if c[ki] > 0 {
-                    f.anns.push(Facts::ann(kind, 100 * (ki as u32 + 1), &format!("{}0", kind.name()), Some(kids[4])));
+                    f.anns.push(Facts::ann(kind, wide[0] + ki as u32, &format!("{}0", kind.name()), Some(kids[4])));
                 }
             }
             let r = RefOnt::derive(&f);
+            let pre = Pre::new(&r);
             let n = f.terms.len();
             let ids: Vec<u32> = f.terms.iter().map(|t| t.id).collect();
             ctx.transitions(2 * f.n_steps());
@@ -236,7 +374,7 @@ pub fn run(ctx: &mut Ctx) {
                     ctx.exec();
                     ctx.validated();
                     ctx.transitions(16);
-                    match guard(|| check_subset(ont, &r, &x)) {
+                    match guard(|| check_subset(ont, &pre, &x, true)) {
                         Ok(None) => {}
                         Ok(Some((site, sig, det))) => ctx.violation(&site, &sig, json!({"record_counts (gene, omim, orpha)": c, "facts": f.to_json(), "constructor": path, "difference": det})),
                         Err(p) => ctx.violation("HpoSet", "panics", json!({"record_counts": c, "facts": f.to_json(), "set": x, "observed": p})),
@@ -258,6 +396,7 @@ pub fn run(ctx: &mut Ctx) {
             ctx.state();
             ctx.nontrivial();
             let r = RefOnt::derive(f);
+            let pre = Pre::new(&r);
             let ids: Vec<u32> = f.terms.iter().map(|t| t.id).collect();
             let n = ids.len();
             let ont = match drive::from_bytes(&encode::encode(f, &EncOpts::v(3))) {
@@ -292,7 +431,7 @@ pub fn run(ctx: &mut Ctx) {
                         let mut set = set_of(&ont, start);
                         let mut model: BTreeSet<u32> = start.iter().copied().collect();
                         let snapshot = |m: &BTreeSet<u32>| -> Vec<u32> { m.iter().copied().collect() };
-                        if let Some(x) = check_set(&ont, &r, &set, &snapshot(&model)) {
+                        if let Some(x) = check_set(&ont, &pre, &set, &snapshot(&model), false) {
                             return Some(x);
                         }
                         for (step, op) in sq.iter().enumerate() {
@@ -318,7 +457,7 @@ pub fn run(ctx: &mut Ctx) {
                                 let own: Vec<u32> = ids_of(&set);
                                 set.extend(own.iter().map(|i| ont.hpo(*i).unwrap()));
                             }
-                            if let Some((site, sig, det)) = check_set(&ont, &r, &set, &snapshot(&model)) {
+                            if let Some((site, sig, det)) = check_set(&ont, &pre, &set, &snapshot(&model), false) {
                                 return Some((site, format!("[live set after a sequence of operations] {sig}"), format!("start {start:?}, operations {:?} (step {step}): {det}", sq)));
                             }
                         }
@@ -338,7 +477,7 @@ pub fn run(ctx: &mut Ctx) {
     // ---- structured large graphs: sets with more than 30 members / members with more than 30 ancestors
     {
         let family = crate::props::common::large_family();
-        ctx.space("large-structured/structured-subsets", &format!("{} large shapes (loaded with defaults; every other shape below the modifier root HP:119 instead of HP:118; an obsolete+replaced last term; records on several terms) x structured subsets: every prefix, every suffix, every k-th term (k=2,3,7), all pairs (i, last), the full set", family.len()));
+        ctx.space("large-structured/structured-subsets", &format!("{} large shapes (loaded with defaults; every other shape below the modifier root HP:119 instead of HP:118; an obsolete+replaced last term; records on several terms) x structured subsets: every prefix, every suffix, every k-th term (k=2,3,7), all pairs (i, last), the full set; and one live set per shape that starts with up to 29 terms, is extended one term at a time to 33 and more (incl. the obsolete + replaced term and the term naming it), then replace_obsolete, remove_obsolete, remove_modifier, observed completely after every step", family.len()));
         for (base, what) in &family {
             if !ctx.take() {
                 continue;
@@ -381,6 +520,7 @@ pub fn run(ctx: &mut Ctx) {
             f.anns.push(Facts::ann(crate::model::Kind::Orpha, 77, "Orpha one", Some(ids[n / 3])));
             f.anns.push(Facts::ann(crate::model::Kind::Orpha, 78, "Orpha two, bare", None));
             let r = RefOnt::derive(&f);
+            let pre = Pre::new(&r);
             ctx.transitions(f.n_steps());
             let ont = match drive::from_bytes(&encode::encode(&f, &EncOpts::v(3))) {
                 Ok(Ok(o)) => o,
@@ -403,14 +543,68 @@ pub fn run(ctx: &mut Ctx) {
             for i in 0..n {
                 subsets.push(vec![ids[i], ids[n - 1]]);
             }
-            for x in &subsets {
+            for (si, x) in subsets.iter().enumerate() {
                 ctx.exec();
                 ctx.validated();
                 ctx.transitions(16);
-                match guard(|| check_subset(&ont, &r, x)) {
+                // (the full set and every 16th structured subset with the derived sets observed completely)
+                match guard(|| check_subset(&ont, &pre, x, si % 16 == 0)) {
                     Ok(None) => {}
                     Ok(Some((site, sig, det))) => ctx.violation(&site, &format!("[large shape] {sig}"), json!({"shape": what, "difference": det})),
                     Err(p) => ctx.violation("HpoSet", "[large shape] panics", json!({"shape": what, "set": x, "observed": p})),
+                }
+            }
+            // one live set that grows across the inline capacity of its id group (30) and is then filtered in place:
+            // start = up to 29 terms, extended one term at a time by four more, by the term that names the obsolete
+            // term as its replacement and by the obsolete, replaced term itself (its replacement is the middle term:
+            // a collision when that is a member), then replace_obsolete, remove_obsolete, remove_modifier; the whole
+            // observation (derived sets included) after every step
+            {
+                let special = [ids[n - 2], ids[n - 1]];
+                let mut order: Vec<u32> = sorted.iter().copied().filter(|t| !special.contains(t)).collect();
+                let start_len = order.len().saturating_sub(4).min(29);
+                let mut grow: Vec<u32> = order.split_off(start_len);
+                grow.truncate(4);
+                grow.extend(special);
+                let steps = grow.len() + 3;
+                ctx.execs(steps as u64 + 1);
+                ctx.validateds(steps as u64 + 1);
+                ctx.transitions(steps as u64);
+                let res = guard(|| -> V {
+                    let mut set = set_of(&ont, &order);
+                    let mut model: BTreeSet<u32> = order.iter().copied().collect();
+                    let snapshot = |m: &BTreeSet<u32>| -> Vec<u32> { m.iter().copied().collect() };
+                    if let Some(f) = check_set(&ont, &pre, &set, &snapshot(&model), true) {
+                        return Some(f);
+                    }
+                    for step in 0..steps {
+                        let what = if step < grow.len() {
+                            set.extend(std::iter::once(ont.hpo(grow[step]).unwrap()));
+                            model.insert(grow[step]);
+                            format!("extend({})", grow[step])
+                        } else if step == grow.len() {
+                            set.replace_obsolete();
+                            model = model.iter().map(|t| r.terms[t].replacement.unwrap_or(*t)).collect();
+                            "replace_obsolete".to_string()
+                        } else if step == grow.len() + 1 {
+                            set.remove_obsolete();
+                            model.retain(|t| !r.terms[t].obsolete);
+                            "remove_obsolete".to_string()
+                        } else {
+                            set.remove_modifier();
+                            model.retain(|t| !pre.is_mod[t]);
+                            "remove_modifier".to_string()
+                        };
+                        if let Some((site, sig, det)) = check_set(&ont, &pre, &set, &snapshot(&model), true) {
+                            return Some((site, format!("[live set growing across the inline capacity] {sig}"), format!("start = {} terms, then extend one by one {grow:?}, replace_obsolete, remove_obsolete, remove_modifier; after step {step} ({what}): {det}", order.len())));
+                        }
+                    }
+                    None
+                });
+                match res {
+                    Ok(None) => {}
+                    Ok(Some((site, sig, det))) => ctx.violation(&site, &format!("[large shape] {sig}"), json!({"shape": what, "difference": det})),
+                    Err(p) => ctx.violation("HpoSet", "[large shape] [live set growing across the inline capacity] panics", json!({"shape": what, "observed": p})),
                 }
             }
             ctx.sample(|| json!({"shape": what, "n_terms": n, "subsets": subsets.len(), "below_a_modifier_root": below_modifier}));
@@ -442,6 +636,7 @@ pub fn run(ctx: &mut Ctx) {
                 }
             }
             let r = RefOnt::derive(&f);
+            let pre = Pre::new(&r);
             ctx.transitions(2 * f.n_steps());
             let mut onts: Vec<(Ontology, &str)> = vec![];
             if let Ok(Ok(o)) = drive::from_bytes(&encode::encode(&f, &EncOpts::v(3))) {
@@ -459,7 +654,7 @@ pub fn run(ctx: &mut Ctx) {
                     ctx.exec();
                     ctx.validated();
                     ctx.transitions(16);
-                    match guard(|| check_subset(ont, &r, &x)) {
+                    match guard(|| check_subset(ont, &pre, &x, deep_for(mask, 10, 0))) {
                         Ok(None) => {}
                         Ok(Some((site, sig, det))) => {
                             ctx.violation(&site, &format!("[many records] {sig}"), json!({"constructor": path, "set": x, "difference": det}));
@@ -477,7 +672,7 @@ pub fn run(ctx: &mut Ctx) {
     }
     // ---- custom modifier roots and categories (Ontology::modifier_mut / categories_mut are public)
     let small = family_e(1, 2, &[200, 7]);
-    ctx.space("custom-modifier-roots-and-categories", &format!("{} ontologies (k <= 2, no flags) built ONCE with build_minimal; every single term and every pair of terms in turn installed as custom modifier roots through modifier_mut() (lists re-edited after they were queried), categories set to one of two unrelated pairs through categories_mut(); every subset as HpoSet: without_modifier / remove_modifier / categories", small.iter().filter(|(f, _)| f.terms.iter().all(|t| !t.obsolete && t.replacement.is_none())).count()));
+    ctx.space("custom-modifier-roots-and-categories", &format!("{} ontologies (k <= 2, no flags) built ONCE with build_minimal; no term, every single term and every pair of terms in turn installed as custom modifier roots through modifier_mut() (lists re-edited after they were queried), categories set to one of two unrelated pairs through categories_mut(); every subset as HpoSet: without_modifier / remove_modifier / categories", small.iter().filter(|(f, _)| f.terms.iter().all(|t| !t.obsolete && t.replacement.is_none())).count()));
     for (f, what) in &small {
         if f.terms.iter().any(|t| t.obsolete || t.replacement.is_some()) {
             continue;
@@ -490,7 +685,8 @@ pub fn run(ctx: &mut Ctx) {
         let r = RefOnt::derive(f);
         let ids: Vec<u32> = f.terms.iter().map(|t| t.id).collect();
         let n = ids.len();
-        let mut root_sets: Vec<Vec<u32>> = ids.iter().map(|i| vec![*i]).collect();
+        // (first no root at all: an empty list means "nothing is a modifier", not "use the default roots")
+        let mut root_sets: Vec<Vec<u32>> = std::iter::once(vec![]).chain(ids.iter().map(|i| vec![*i])).collect();
         for a in 0..n {
             for b in a + 1..n {
                 root_sets.push(vec![ids[a], ids[b]]);
@@ -518,13 +714,13 @@ pub fn run(ctx: &mut Ctx) {
                     let set = set_of(&ont, &x);
                     let mut want: Vec<u32> = x.iter().copied().filter(|t| !r.anc_incl(*t).iter().any(|a| roots.contains(a))).collect();
                     want.sort_unstable();
-                    let got = ids_of(&set.without_modifier());
+                    let got = members(&set.without_modifier());
                     if got != want {
                         return Some(("HpoSet::without_modifier".into(), "[custom modifier roots] does not drop exactly the members that are or descend from a modifier root".into(), format!("roots {roots:?} set {x:?}: {got:?} expected {want:?}")));
                     }
                     let mut m = set_of(&ont, &x);
                     m.remove_modifier();
-                    if ids_of(&m) != want {
+                    if members(&m) != want {
                         return Some(("HpoSet::remove_modifier".into(), "[custom modifier roots] in-place result differs from the copying counterpart".into(), format!("roots {roots:?} set {x:?}: {:?} expected {want:?}", ids_of(&m))));
                     }
                     for t in &x {
@@ -559,9 +755,10 @@ pub fn run(ctx: &mut Ctx) {
     // ---- sequences of ontologies built one after the other at the same address: every subset of both
     super::common::ontology_sequences(ctx, "sets", Mode::Defaults, &mut |ont, r| {
         let ids: Vec<u32> = r.terms.keys().copied().collect();
+        let pre = Pre::new(r);
         for mask in 0..(1u32 << ids.len()) {
             let x: Vec<u32> = crate::space::bits(mask, ids.len()).iter().map(|i| ids[*i]).collect();
-            if let Some(v) = check_subset(ont, r, &x) {
+            if let Some(v) = check_subset(ont, &pre, &x, mask % 4 == 3) {
                 return Some(v);
             }
         }
